@@ -80,15 +80,21 @@ def find(req):
     import archive_probe
     import C09_probe as P
     oid = (req or {}).get("obligation") or ""
+    if "read-back-path-identifies-one-member" in oid or (req or {}).get("known_finding") == "C09-7z-read-back-by-path-collisions":
+        # a recorded defect of the unchanged tree: probed only for its own obligation, never as a witness for another one
+        r = P.name_collisions_7z()
+        return r if r is not None else {"reproduced": False, "note": "7z entries sharing one path: no selected member gave another entry's bytes"}
     hint = (req or {}).get("extra") or {}
     first = tuple(hint.get("first", ())) if isinstance(hint, dict) else ()
     probes = [("function-level", function_level), ("confinement", lambda: P.confinement(first)), ("histories", P.histories), ("skip-rules", P.skip_rules),
-              ("oversize", archive_probe.oversize_members), ("oversize-7z", P.oversize_7z)]
+              ("oversize", archive_probe.oversize_members), ("oversize-7z", P.oversize_7z), ("declared-sizes", P.declared_sizes)]
     pref = []
     if "skip" in oid:
         pref = ["function-level", "skip-rules"]
+    elif "declared" in oid or "bytes-written" in oid:
+        pref = ["declared-sizes"]
     elif "oversize" in oid or "size" in oid:
-        pref = ["oversize", "oversize-7z"]
+        pref = ["oversize", "oversize-7z", "declared-sizes"]
     elif "temp-dir" in oid:
         pref = ["histories"]
     elif "regular" in oid or "file-system" in oid or "fs-confined" in oid or "path" in oid:
